@@ -1,6 +1,6 @@
 (* C05/Proofs_unpack.v — unpack_log_data / the CHAN_LOGDATA branch of _new_packet_cb decode exactly what
    a device encodes (little-endian, two's complement, floats as bit patterns, 24-bit timestamp). *)
-From CF Require Import C05.Model C05.Proofs_create.
+Require Import CF.C05.Model CF.C05.Proofs_create.
 From Coq Require Import ZifyBool.
 Open Scope Z_scope.
 Ltac Zify.zify_post_hook ::= Z.to_euclidean_division_equations.
